@@ -4,6 +4,7 @@ package resolver
 
 import (
 	"context"
+	"time"
 
 	"github.com/miekg/dns"
 	"github.com/semihalev/sdns/internal/authority"
@@ -51,4 +52,24 @@ func VerifC13HandleLookupError(store middleware.Store, ctx context.Context, err 
 	rs := &resolveState{req: req, servers: &authority.Servers{Zone: zone}}
 	_, out := verifC13Resolver(store).handleLookupError(ctx, err, rs, req, false)
 	return out
+}
+
+// VerifC13LookupV4Nss runs the real Resolver.lookupV4Nss for a glueless
+// delegation of zone to hosts, with q answering the name-server address
+// sub-lookups. It returns how many servers the delegation ended up with and
+// the error. The resolver's queryer is restored afterwards.
+func VerifC13LookupV4Nss(r *Resolver, q middleware.Queryer, ctx context.Context, zone string, hosts []string, key uint64) (int, error) {
+	old := r.queryer.Load()
+	r.queryer.Store(&q)
+	defer r.queryer.Store(old)
+	set := hostSet{}
+	for _, h := range hosts {
+		set[h] = struct{}{}
+	}
+	servers := &authority.Servers{Zone: zone}
+	err := r.lookupV4Nss(ctx, dns.Question{Name: zone, Qtype: dns.TypeNS, Qclass: dns.ClassINET}, servers, key, nil, hostSet{}, set, true, time.Now().Add(time.Minute))
+	servers.RLock()
+	n := len(servers.List)
+	servers.RUnlock()
+	return n, err
 }
